@@ -175,3 +175,9 @@ def rules(ctx: Ctx) -> None:
     # owner object (= R06.4); session entries do not outlive a failed run (= R12.1)
     common.import_rules(ctx, "C06", {"R06.4": "R04.5"}, key_filter=lambda o: o.key == "column-equality-includes-the-owner-object")
     common.import_rules(ctx, "C12", {"R12.1": "R04.6"})
+
+    # ---- R04.7 (= R13.2): what a metadata look-up may be conditioned on - a further condition (the written table has an explicit schema ...)
+    # makes the chain through an intermediate table depend on how the script spells that table
+    from .common import import_rules as _imp04
+
+    _imp04(ctx, "C13", {"R13.2": "R04.7"}, key_filter=lambda o: o.key.startswith("lookup-guards-whitelisted"))
